@@ -447,6 +447,14 @@ def malformed_history(rng):
                 g.txn(victim)
                 spec = g.ops.pop().split(" ", 3)[3]
                 g.ops.append("proc mut %s seed=%d %s" % (victim, rng.randrange(1, 2 ** 48), spec))
+        elif k < 0.6:
+            # a well-framed transaction for the victim run whose package list is JSON of the wrong shape (or no JSON at all);
+            # it is looked at when the victim's default data is harvested - on the processor goroutine
+            g.txn(victim)
+            raw = rng.choice([b"[[]]", b"[1]", b'[["a"]]', b'[["a","b"]]', b"[[1,2,3]]", b"{}", b"[null]", b'[["a","1",{}],[]]',
+                              b'[[[],[],[]]]', b"[[", b"", b'"x"', b"[[null,null,null]]", b'[["a","1",{}],["a","1",{}]]'])
+            g.ops[-1] += " pkgsraw=%s" % (raw.hex() or "-")
+            g.ops.append("proc trigger %s %d" % (victim, rng.choice([DEFAULT, ALL])))
         elif k < 0.75:
             # a damaged log event (shorter than 4 bytes) in an otherwise well-formed message for a healthy run
             g.txn(rng.choice(others), shortlog=rng.random() < 0.35)
